@@ -254,6 +254,38 @@ func runC01(p *Prog, r *Report, tier string) {
 						okClear = true
 					}
 				}
+				// the same bit tested with a mask: b & 0x80 != 0 (or == 0x80, > 0), either polarity
+				if x.Op == token.AND && firstByteOf(x.X, idBytes) {
+					if m, ok := constInt(x.Y); ok && m == 0x80 {
+						for _, ref := range refs(x) {
+							cmp, ok := ref.(*ssa.BinOp)
+							if !ok {
+								continue
+							}
+							for _, r2 := range refs(cmp) {
+								iff, ok := r2.(*ssa.If)
+								if !ok {
+									continue
+								}
+								for _, cf := range cmpForms(iff.Cond) {
+									if cf.X != ssa.Value(x) {
+										continue
+									}
+									k, ok := constInt(cf.Y)
+									if !ok {
+										continue
+									}
+									if (cf.Op == token.NEQ && k == 0) || (cf.Op == token.EQL && k == 0x80) || (cf.Op == token.GTR && k == 0) {
+										okBit = true
+										if len(decs) > 1 && edgeDominates(iff.Block(), cf.Succ, decs[1].Block()) {
+											okGuard = true
+										}
+									}
+								}
+							}
+						}
+					}
+				}
 				if x.Op == token.AND && firstByteOf(x.X, idBytes) {
 					if m, ok := constInt(x.Y); ok && m == 0x7f {
 						okClear = true
